@@ -150,6 +150,7 @@ mkunaryexpr(enum tokenkind op, struct expr *base)
 			type = base->type->base;
 			expr = base->base;
 			expr->type = type;
+			expr->qual = base->type->qual;
 		} else {
 			expr = mkexpr(EXPRUNARY, base->type->base, base);
 			expr->qual = base->type->qual;
